@@ -14,14 +14,21 @@ MANIFEST = dict(
          "registration keeps address/ephemeral/enabled/weight for any origin and tag), foreign_deregister_refused / "
          "own_deregister_removes, disconnect_removes_own_ephemeral_only (RemoveClient leaves every instance untouched except "
          "ephemeral instances of that client) + disconnect_removes_recorded_ephemeral + grpc_registration_recorded, console "
-         "metadata precedence.  The old code's violation (persistent gRPC instance removed on disconnect) is kept as a refuted "
+         "metadata precedence; completeness at full strength over ALL histories: conv (every stored instance carrying the id of a "
+         "connection not yet removed is recorded for it) is preserved by every op (conv_step, conv_reachable), so for a live "
+         "connection recorded = owned (recorded_iff_owned) and RemoveClient removes ALL its ephemeral instances and nothing else "
+         "(disconnect_removes_ALL_own_ephemeral, disconnect_exact; hypotheses are boolean predicates on the history: op_wfb, alive_b "
+         "= the connection id was not removed before).  The old code's violation (persistent gRPC instance removed on disconnect) is kept as a refuted "
          "statement about a regression model; the repair is commit 773fb5e.  Tied to the code by the differential run of the REAL "
          "NamingActor (QueryList/QueryListString/QueryServiceInfo/Query/Delete/RemoveClient through the mailbox) + an "
-         "independent oracle recomputing each answer from the dumped instance map.",
+         "independent oracle recomputing each answer from the dumped instance map; the disconnect oracle reconstructs ownership "
+         "from the op history ALONE (which live connection registered which address as ephemeral, HTTP overwrite keeps ownership, "
+         "deregistration rules, distro diff), never from the implementation's client_instance_set or stored client id.",
     note="The protection test is proved over exact rationals (threshold num/den); binary32 rounding is not modelled, the harness "
-         "uses thresholds {0,1/4,1/2,3/4,1} and a handful of instances where both agree. Completeness of disconnect is stated for "
-         "instances recorded in client_instance_set (a persistent gRPC instance whose connection is gone and that is later "
-         "flipped to ephemeral over HTTP keeps the dead client id and is not recorded: outside the statement). Trusted: as C11.",
+         "uses thresholds {0,1/4,1/2,3/4,1} and a handful of instances where both agree. Disconnect completeness holds for connections that "
+         "have not been removed before (ids are not reused; generators retire ids). Observation replayed on the real code, outside "
+         "the statement: a persistent gRPC instance survives the end of its connection (correct), a later HTTP update flips it to "
+         "ephemeral, it keeps the dead connection's id and then belongs to no live connection and to no clock (orphan_flip_example). Trusted: as C11.",
     technique="Rocq proof (consequences of the registry invariant) + model/implementation correspondence",
     design="3/C12",
 )
@@ -66,6 +73,89 @@ def inst_of(state, sk, ik):
 
 def all_instances(state):
     return {(tuple(s["map_key"]), e["mk"]): e["i"] for s in state["services"] for e in s["instances"]}
+
+
+class Ownership:
+    """Who owns which address, reconstructed from the op history ALONE (never from the
+    implementation's client_instance_set or the client id it stores): which (service, address) each
+    live gRPC connection has registered, whether the registration is ephemeral, and which
+    connections have already been removed.  Presence is pruned with the dumped instance map only
+    for removals that do not depend on ownership (time-outs of HTTP instances)."""
+
+    def __init__(self):
+        self.owner = {}     # address -> gRPC connection id, 0 = none (HTTP / raft)
+        self.fg = {}        # address -> registered over gRPC (kept by an ephemeral HTTP overwrite)
+        self.eph = {}       # address -> ephemeral
+        self.dead = set()   # connections whose RemoveClient was processed
+        self.seen = set()   # connections that ever registered something
+
+    def write(self, key, i, tag):
+        exists = key in self.eph
+        if i["fg"]:
+            self.fg[key] = True
+            self.owner[key] = i["cl"]
+            if i["cl"]:
+                self.seen.add(i["cl"])
+        elif exists and i["ep"] and self.fg.get(key):
+            pass                                    # HTTP overwrite keeps gRPC ownership
+        else:
+            self.fg[key] = False
+            self.owner[key] = 0
+        if not exists or tag is None:
+            self.eph[key] = i["ep"]
+        elif any(tag[:4]) and tag[3]:
+            self.eph[key] = i["ep"]
+
+    def drop(self, key):
+        for d in (self.owner, self.fg, self.eph):
+            d.pop(key, None)
+
+    def apply(self, op):
+        """effect of one op; returns for a client removal the set of addresses that must disappear"""
+        n = op[0]
+        if n == "upd":
+            self.write((tuple(op[1]), op[2]["k"]), op[2], op[3])
+        elif n == "batch":
+            for k, i in op[1]:
+                self.write((tuple(k), i["k"]), i, None)
+        elif n == "snap":
+            for k, i in op[2]:
+                self.write((tuple(k), i["k"]), i, None)
+        elif n == "raft":
+            if not op[3]["ep"]:
+                self.write((tuple(op[2]), op[3]["k"]), dict(op[3], fg=False, fc=0, cl=0), None)
+        elif n in ("del", "delbatch"):
+            for k, i in ([(op[1], op[2])] if n == "del" else op[1]):
+                key = (tuple(k), i["k"])
+                if key in self.eph and not (self.eph[key] and i["cl"] != 0 and self.owner.get(key) != i["cl"]):
+                    self.drop(key)
+        elif n == "raftrm":
+            self.drop((tuple(op[1]), op[2]))
+        elif n == "diff":
+            gone = []
+            for c, theirs in op[2]:
+                if c in self.seen and c not in self.dead:
+                    th = set((tuple(k), ik) for k, ik in theirs)
+                    gone += [key for key, o in self.owner.items() if o == c and key not in th]
+            for key in gone:
+                self.drop(key)
+        elif n in ("rmclient", "rmclient_cluster", "rmclients"):
+            cls = [op[1]] if n != "rmclients" else list(op[1])
+            must = set()
+            for c in cls:
+                if c == 0 or c in self.dead:
+                    continue
+                self.dead.add(c)
+                for key, o in list(self.owner.items()):
+                    if o == c and self.eph.get(key):
+                        must.add(key)
+                        self.drop(key)
+            return must
+        return None
+
+    def prune(self, present):
+        for key in [k for k in self.eph if k not in present]:
+            self.drop(key)
 
 
 def oracle_step(op, prev, cur, out):
@@ -146,6 +236,16 @@ def nasty_cases(rng):
           ["upd", sk, mk(1, ep=True, fg=True, cl=1), nc.grpc_tag(mk(1)), False],
           ["upd", sk2, mk(0, ep=True, fg=True, cl=2), nc.grpc_tag(mk(0)), False], ["rmclient", 1], ["qall", sk], ["qall", sk2],
           ["rmclient", 2], ["qall", sk2]])
+    # an HTTP heartbeat / re-registration over a gRPC-owned address keeps the ownership: the instance still goes when
+    # the connection closes (the record must not be dropped by the overwrite)
+    case([["upd", sk, mk(0, fg=True, cl=1), nc.grpc_tag(mk(0)), False], ["upd", sk, mk(0), list(nc.TAG_BEAT), False],
+          ["upd", sk, mk(0, md=1), list(nc.TAG_ALL), False], ["upd", sk2, mk(0, fg=True, cl=1), nc.grpc_tag(mk(0)), False],
+          ["upd", sk2, mk(0), [True, True, True, False, True], False], ["qall", sk], ["rmclient", 1], ["qall", sk], ["qall", sk2]])
+    # ORPHAN_FLIP (observation, outside the statement): a persistent instance survives the end of its connection, is
+    # then flipped to ephemeral over HTTP and keeps the id of the dead connection; removing the dead id again does nothing
+    case([["upd", sk, mk(0, ep=False, fg=True, cl=1), nc.grpc_tag(mk(0)), False], ["upd", sk, mk(1, fg=True, cl=2), nc.grpc_tag(mk(1)), False],
+          ["rmclient", 1], ["upd", sk, mk(0, ep=True), [False, False, False, True, True], False], ["qone", sk, 0], ["rmclient", 1],
+          ["qone", sk, 0], ["rmclient", 2], ["qall", sk]])
     # thresholds x healthy/unhealthy mixes x healthy_only
     for q in (0, 1, 2, 3, 4):
         ops = [["svc", sk, q]]
@@ -174,13 +274,19 @@ def random_case(rng, nops):
     for _ in range(nops):
         x = rng.random()
         if x < 0.25:
-            ops.append(g.query())
+            q = g.query()
+            if q[0] in ("qlist", "qstr", "qinfo") and rng.random() < 0.4:
+                q = q + [rng.choice(["DEFAULT", "c1", "c1,c2", "nope"])]      # cluster filter: the code ignores it
+            ops.append(q)
         elif x < 0.33:
-            ops.append(["rmclient", rng.choice(g.clients + [11])])
+            ops.append(["rmclient", rng.choice(g.clients + g.remote[:1])])
         elif x < 0.36:
             ops.append(["svc", g.sk(), rng.choice([0, 1, 2, 3, 4])])
         else:
             ops.append(g.op())
+            if ops[-1][0] == "upd" and rng.random() < 0.3:
+                ops[-1][2]["cn"] = rng.choice(["c1", "c2"])                     # instance registered in a named cluster
+        g.retire(ops[-1])
     return {"cfg": dict(nc.CFG), "ops": ops, "dump": "all", "services": [list(k) for k in g.services]}
 
 
@@ -202,6 +308,7 @@ def run(chk, replay=None):
     impl = lib.harness_run_parallel("naming", cases)
 
     n_eval = 0
+    n_indep = 0
     nontrivial = set()
     hist = {}
     t0_state = {"services": [], "clients": [], "index": {"size": 0, "ns": []}, "empty_set": [], "meta_set": [], "range": None}
@@ -212,8 +319,21 @@ def run(chk, replay=None):
         if not nc.in_scope_case(c):
             continue
         prev = t0_state
+        own = Ownership()
         for ix, (op, st) in enumerate(zip(c["ops"], r["steps"])):
             cur = nc.canon_impl_state(st["st"])
+            must = own.apply(op)
+            if must is not None:
+                b, a = all_instances(prev), all_instances(cur)
+                must = set(k for k in must if k in b)
+                gone = set(b) - set(a)
+                n_indep += 1
+                if gone != must:
+                    what = ("connection(s) %s closed: instances registered by it as ephemeral (from the op history) = %s, "
+                            "instances that disappeared = %s" % (op[1], sorted(must), sorted(gone)))
+                    chk.classify("C12:disconnect-history", "op %d %s: %s" % (ix, op[0], what),
+                                 {"suite": "naming", "case": dict(c, ops=c["ops"][:ix + 1]), "what": what})
+            own.prune(all_instances(cur))
             if op[0] in ("qlist", "qstr", "qinfo", "qone", "upd", "del", "rmclient", "rmclient_cluster", "rmclients"):
                 n_eval += 1
                 hist[op[0]] = hist.get(op[0], 0) + 1
@@ -234,6 +354,16 @@ def run(chk, replay=None):
                         nontrivial.add(("del", i["ep"], i["cl"], op[2]["cl"]))
             prev = cur
 
+    if not replay:
+        # the orphan-flip observation (third structured history)
+        try:
+            st = impl[2]["steps"]
+            chk.notes["orphan_flip_observation"] = {
+                "after_flip": st[4]["out"], "after_second_RemoveClient_of_the_dead_id": st[6]["out"],
+                "meaning": "ephemeral instance bound to a connection that no longer exists; it is under neither the heartbeat clock "
+                           "(from_grpc) nor any live connection; outside C12_disconnect_removes_ALL_own_ephemeral (alive_b false)"}
+        except Exception:
+            pass
     mism = 0
     try:
         vals = lib.coq_eval_sharded("c12", nc.HEADER, [nc.model_expr(c, hashes) for c in cases],
@@ -268,6 +398,9 @@ def run(chk, replay=None):
                        "(query kind, healthy_only, threshold, #instances, #healthy, #enabled) with >1 instance, distinct client-set at "
                        "a disconnect, distinct (ephemeral, owner, caller) at a deregistration")
     chk.cov["samples"] = cases[:2] + [cases[len(cases) // 2]]
-    chk.cov["input_distribution"] = {"histories": len(cases), "judged_ops_by_kind": hist, "model_impl_mismatches": mism}
-    chk.assumptions += ["thresholds exactly representable (k/4), binary32 rounding not modelled", "cluster filter string empty (the code ignores it)",
+    chk.cov["input_distribution"] = {"histories": len(cases), "judged_ops_by_kind": hist, "model_impl_mismatches": mism,
+                                     "disconnects_judged_from_history_alone": n_indep}
+    chk.assumptions += ["thresholds exactly representable (k/4), binary32 rounding not modelled",
+                        "cluster filter strings and instance cluster names are exercised on the real code; the code ignores them "
+                        "(get_instance_list(_cluster_names, ..)), so does the model (no such parameter)",
                         "instances not from gRPC carry no client id (op_wf)"]
